@@ -89,7 +89,17 @@ func buildFile(t *rapid.T, path, key string, p histParams) (bf *builtFile, err e
 		}
 	}
 	if n := countStates(data); n != len(bf.States) {
-		return nil, fmt.Errorf("file holds %d state records, harness recorded %d", n, len(bf.States))
+		var found, recorded []int
+		for p := 0; p+stateLen <= len(data); p++ {
+			if isStateAt(data, p) {
+				found = append(found, p)
+			}
+		}
+		for _, s := range bf.States {
+			recorded = append(recorded, int(s.Off))
+		}
+		return nil, fmt.Errorf("file holds %d state records %v, harness recorded %d %v; clean ends %v\njournal:\n  %s", n, found, len(bf.States), recorded,
+			bf.CleanAt, strings.Join(h.journal, "\n  "))
 	}
 	// the history itself must have left a sound database (otherwise a failure
 	// below would not be about recovery)
@@ -817,8 +827,10 @@ func TestC05(t *testing.T) {
 			rec.LabelN("history_clean_closes", len(bf.CleanAt))
 			rec.Label("files_" + sub)
 			e.alwaysOpen = !all
-			if n, _ := strconv.Atoi(os.Getenv("VERIF_C05_LIMIT")); n > 0 && n < len(specs) { // development aid
+			if n, _ := strconv.Atoi(os.Getenv("VERIF_C05_LIMIT")); n > 0 && n < len(specs) { // development aid: last n
 				specs = specs[len(specs)-n:]
+			} else if n < 0 && -n < len(specs) { // first n
+				specs = specs[:-n]
 			}
 			e.run(bf, specs, workers)
 		}
